@@ -70,8 +70,14 @@ func FreePort() int {
 		claim := filepath.Join(dir, strconv.Itoa(port))
 		f, err := os.OpenFile(claim, os.O_CREATE|os.O_EXCL|os.O_WRONLY, 0o666)
 		if err != nil {
-			if st, e2 := os.Stat(claim); e2 == nil && time.Since(st.ModTime()) > 20*time.Minute {
-				os.Remove(claim)
+			// recycle the claim of a process that no longer exists (or a very old one)
+			if b, e2 := os.ReadFile(claim); e2 == nil {
+				pid, _ := strconv.Atoi(strings.TrimSpace(string(b)))
+				_, e3 := os.Stat(fmt.Sprintf("/proc/%d", pid))
+				st, e4 := os.Stat(claim)
+				if (pid > 0 && e3 != nil) || (e4 == nil && time.Since(st.ModTime()) > 20*time.Minute) {
+					os.Remove(claim)
+				}
 			}
 			continue
 		}
@@ -88,6 +94,13 @@ func FreePort() int {
 		return port
 	}
 	return 0
+}
+
+// ReleasePort gives a claimed port back (only for ports nothing listens on any more).
+func ReleasePort(port int) {
+	if port > 0 {
+		os.Remove(filepath.Join("/dev/shm/verifports", strconv.Itoa(port)))
+	}
 }
 
 func repoRoot() string {
@@ -161,6 +174,9 @@ func New(o Options) (*Rig, error) {
 	gin.SetMode(gin.ReleaseMode)
 
 	r.Port = FreePort()
+	if r.Port == 0 {
+		return nil, fmt.Errorf("no free port could be claimed")
+	}
 	prof := filepath.Join(r.Dir, "data", "profile.yaotl")
 	if err := os.WriteFile(prof, []byte(o.profileText(r.Port)), 0o644); err != nil {
 		return nil, err
@@ -223,6 +239,10 @@ func New(o Options) (*Rig, error) {
 // until the process exits; workers are short-lived processes).
 func (r *Rig) Close() {
 	os.Chdir("/")
+	if !r.Opts.Full {
+		// an assembled rig never bound its teamserver port
+		ReleasePort(r.Port)
+	}
 	if r.fresh {
 		os.RemoveAll(r.Dir)
 	}
